@@ -1692,7 +1692,10 @@ class PseudoNetCDFFile(PseudoNetCDFSelfReg, object):
                             axis=di, keepdims=True)
                     else:
                         newvals = np.apply_along_axis(dfunc, di, newvals)
-            newvaro = outf.copyVariable(varo, key=vark, withdata=False)
+            # the output takes the data type the functions returned (e.g.,
+            # the mean of an integer variable is not truncated)
+            newvaro = outf.copyVariable(
+                varo, key=vark, dtype=newvals.dtype, withdata=False)
             newvaro[...] = newvals
         if verbose > 0:
             print()
